@@ -79,6 +79,7 @@ type c19Case struct {
 	lvl    int
 	dyn    bool // HandlerOptions.Level is a *slog.LevelVar (initialised to lvl), not the constant lvl
 	src    bool // HandlerOptions.AddSource, and every record carries a program counter (suffix "s")
+	repl   bool // HandlerOptions.ReplaceAttr = c19Replace (suffix "r")
 	attrs  []c19Attr
 	recs   []c19Rec
 	script []c19Op
@@ -110,13 +111,14 @@ func c19Parse(line string) (c *c19Case) {
 	if len(f) < 5 || f[0] != "C19.tree" {
 		panic("bad C19.tree case")
 	}
-	lvlTok, src := strings.CutSuffix(f[1], "s")
+	lvlTok, repl := strings.CutSuffix(f[1], "r")
+	lvlTok, src := strings.CutSuffix(lvlTok, "s")
 	if strings.HasPrefix(lvlTok, "v") {
 		c = &c19Case{lvl: atoi(lvlTok[1:]), dyn: true}
 	} else {
 		c = &c19Case{lvl: atoi(lvlTok)}
 	}
-	c.src = src
+	c.src, c.repl = src, repl
 	if f[2] != "-" {
 		for _, a := range strings.Split(f[2], ",") {
 			p := strings.SplitN(a, ":", 3)
@@ -250,9 +252,36 @@ func c19RefLine(hlvl int, level int, t time.Time, msg string, attrs []slog.Attr)
 	return c19RefLineSrc(false, hlvl, level, t, msg, attrs)
 }
 
+// c19Replace is the ReplaceAttr function of "r" cases: it removes the time and the attribute k1,
+// renames k2, and leaves what is inside groups alone.
+func c19Replace(groups []string, a slog.Attr) slog.Attr {
+	if len(groups) > 0 {
+		return a
+	}
+	switch a.Key {
+	case slog.TimeKey, "k1":
+		return slog.Attr{}
+	case "k2":
+		a.Key = "K2"
+	}
+	return a
+}
+
+func c19Opts(src, repl bool, lvl slog.Leveler) *slog.HandlerOptions {
+	o := &slog.HandlerOptions{Level: lvl, AddSource: src}
+	if repl {
+		o.ReplaceAttr = c19Replace
+	}
+	return o
+}
+
 func c19RefLineSrc(src bool, hlvl int, level int, t time.Time, msg string, attrs []slog.Attr) []byte {
+	return c19RefLineOpts(src, false, hlvl, level, t, msg, attrs)
+}
+
+func c19RefLineOpts(src, repl bool, hlvl int, level int, t time.Time, msg string, attrs []slog.Attr) []byte {
 	var buf bytes.Buffer
-	th := slog.NewTextHandler(&buf, &slog.HandlerOptions{Level: slog.Level(hlvl), AddSource: src})
+	th := slog.NewTextHandler(&buf, c19Opts(src, repl, slog.Level(hlvl)))
 	var pc uintptr
 	if src {
 		pc = c19PC()
@@ -295,7 +324,7 @@ func (c *c19Case) refFor(rid int, path []int) (key string, line []byte) {
 	if len(ks) > 0 {
 		k = strings.Join(ks, ".")
 	}
-	return fmt.Sprintf("%d;%s", rid, k), c19RefLineSrc(c.src, c.lvl, r.level, r.time(), string(r.msg), as)
+	return fmt.Sprintf("%d;%s", rid, k), c19RefLineOpts(c.src, c.repl, c.lvl, r.level, r.time(), string(r.msg), as)
 }
 
 // line renders the case with a fresh oracle.
@@ -354,6 +383,9 @@ func (c *c19Case) line() string {
 	}
 	if c.src {
 		lvl += "s"
+	}
+	if c.repl {
+		lvl += "r"
 	}
 	return fmt.Sprintf("C19.tree %s %s %s %s %s", lvl, j(as), j(rs), j(ops), j(orc))
 }
@@ -450,7 +482,7 @@ func evalC19Tree(line string) Result {
 	}
 	cur, sets, dynEnabled := c.lvl, 0, false
 	notFrozen, notCurrent := "", "" // the first Enabled call that does not fit the reading
-	root := slogutil.NewJSONHybridHandler(w, &slog.HandlerOptions{Level: leveler, AddSource: c.src})
+	root := slogutil.NewJSONHybridHandler(w, c19Opts(c.src, c.repl, leveler))
 	nodes := []slog.Handler{root}
 	paths := [][]int{nil}
 	recs := make([]slog.Record, len(c.recs))
@@ -952,7 +984,7 @@ func c19GenTree(rng *rand.Rand) string {
 	setLevels := []int{-8, -5, -4, -3, -1, 0, 1, 3, 4, 5, 7, 8, 9, 12}
 	// about half of the trees hang off a *slog.LevelVar; cur is the level the tree is configured
 	// with at this point of the script, prev the one before the last Set
-	c := &c19Case{lvl: pick(rng, levels...), dyn: rng.IntN(2) == 0, src: rng.IntN(5) == 0}
+	c := &c19Case{lvl: pick(rng, levels...), dyn: rng.IntN(2) == 0, src: rng.IntN(5) == 0, repl: rng.IntN(5) == 0}
 	c19HotKey = nil
 	if t, ok := dictTok(rng); ok && rng.IntN(3) == 0 {
 		c19HotKey = []byte(t)
@@ -1137,7 +1169,7 @@ func genC19(rng *rand.Rand, tier string) (cases []string) {
 // --- shrinker ------------------------------------------------------------------------
 
 func (c *c19Case) clone() *c19Case {
-	d := &c19Case{lvl: c.lvl, dyn: c.dyn, src: c.src}
+	d := &c19Case{lvl: c.lvl, dyn: c.dyn, src: c.src, repl: c.repl}
 	d.attrs = append(d.attrs, c.attrs...)
 	for _, r := range c.recs {
 		r2 := r
